@@ -138,7 +138,7 @@ fn gen(ctx: &GenCtx, i: u64, prop: &str) -> Option<Run> {
         }))
     };
     let b = rb.builder_id();
-    rb.push(Op::NewBuilder { b, proto, layer: Layer::Batteries, now_ns: Ns(created) });
+    rb.push(Op::NewBuilder { b, proto, layer: Layer::Batteries, now_ns: Ns(created), hash_seed: r.next() });
     let mut footer: Option<String> = None;
     let mut assertion: Option<String> = None;
     let mut seq = seq;
